@@ -1,11 +1,49 @@
 import PttVerif.DriverLoop
 import PttVerif.Model.C02
 import PttVerif.Model.C02Spec
-open PttVerif PttVerif.C02
+import PttVerif.Model.C02Login
+open PttVerif PttVerif.C02 PttVerif.C02.Login
 
 /-- ops: fcrypt <pw-hex> <salt-hex> | spec <pw-hex> <two-salt-chars-hex> (the textbook `Spec.crypt3`) | gen <num-dec> <pw-hex> <seed-dec> | check <expected-hex> <input-hex> <accept|reject|any>.
 The seed (how the harness made `rand.Intn` return `num`) and the oracle tag are validated and otherwise ignored. -/
-def stepC02 (_ : Unit) (ws : List String) : Unit × String :=
+def showOut : Out → String
+  | .ok => "ok"
+  | .refused => "refused"
+  | .hash h => toHex h
+  | .fault => "PANIC"
+
+def wantOK (w : String) : Bool := w = "accept" || w = "reject" || w = "any"
+
+/-- the login-history ops (pass `login`): reset <u1,u2,…> | sethash <u> <hash> | login|loginfull|checkpw <u> <pw> <want> |
+chpw <u> <old> <new> <num> <seed> <want> | stored <u>.  State: the store user ↦ hash; `reset` lists the users that
+exist (their hashes are then set by `sethash`). -/
+def stepLogin (st : Store) (ws : List String) : Option (Store × String) :=
+  match ws with
+  | ["reset", us] =>
+      match (us.splitOn ",").mapM parseHex with
+      | some l => some (l.map (fun u => (u, List.replicate 14 0)), "ok")
+      | none => some (st, "bad-op")
+  | ["sethash", u, h] => match parseHex u, parseHex h with
+      | some u, some h => let (s, o) := step st (.sethash u h); some (s, showOut o)
+      | _, _ => some (st, "bad-op")
+  | [k, u, p, w] =>
+      if k = "login" || k = "loginfull" || k = "checkpw" then
+        match parseHex u, parseHex p, wantOK w with
+        | some u, some p, true => let (s, o) := step st (.login u p); some (s, showOut o)
+        | _, _, _ => some (st, "bad-op")
+      else none
+  | ["chpw", u, o, n, num, k, w] => match parseHex u, parseHex o, parseHex n, num.toNat?, k.toNat?, wantOK w with
+      | some u, some o, some n, some num, some _, true => let (s, r) := step st (.chpw u o n num); some (s, showOut r)
+      | _, _, _, _, _, _ => some (st, "bad-op")
+  | ["stored", u] => match parseHex u with
+      | some u => let (s, o) := step st (.stored u); some (s, showOut o)
+      | none => some (st, "bad-op")
+  | _ => none
+
+def stepC02 (st : Store) (ws : List String) : Store × String :=
+  match stepLogin st ws with
+  | some r => r
+  | none =>
   let out := match ws with
     | ["fcrypt", p, s] => match parseHex p, parseHex s with
         | some p, some s => showM toHex (Fcrypt p s)
@@ -33,6 +71,6 @@ def stepC02 (_ : Unit) (ws : List String) : Unit × String :=
         | some e, some p, true => showM (fun b => if b then "true" else "false") (CheckPasswd e p)
         | _, _, _ => "bad-op"
     | _ => "bad-op"
-  ((), out)
+  (st, out)
 
-def main : IO Unit := runHandler { init := (), step := stepC02 }
+def main : IO Unit := runHandler { init := ([] : Store), step := stepC02 }
